@@ -10,6 +10,7 @@ import (
 	"os"
 	"os/exec"
 	"path/filepath"
+	"regexp"
 	"sort"
 	"strconv"
 	"strings"
@@ -292,7 +293,7 @@ func checkMain(args []string) int {
 	if !writeLock && os.Getenv("GOVC_FILTER") == "" {
 		for _, name := range lock[id] {
 			if !generated[name] {
-				skip := false
+				skip := !lockable(name)
 				for _, ue := range uerrs {
 					if strings.HasPrefix(name, ue.Unit) {
 						skip = true
@@ -310,7 +311,9 @@ func checkMain(args []string) int {
 	if writeLock {
 		var names []string
 		for n := range generated {
-			names = append(names, n)
+			if lockable(n) {
+				names = append(names, n)
+			}
 		}
 		sort.Strings(names)
 		lock[id] = names
@@ -457,3 +460,11 @@ func outRoot() string {
 	}
 	return verifRoot()
 }
+
+// lockable: the lock file guards against obligations that silently stop being generated (vacuity).
+// Obligations at control-flow joins and at call sites are auxiliary and named after SSA block
+// numbers and call ordinals, which move under harmless edits; they are checked whenever they are
+// generated but their absence is not an alarm.
+var reUnlockable = regexp.MustCompile(`#join\d+\.\d+:|#call:`)
+
+func lockable(name string) bool { return !reUnlockable.MatchString(name) }
